@@ -5,14 +5,26 @@
 #include <cstdlib>
 #include <cassert>
 #include <cstdio>
+#include <cstring>
+// Wiping a segment (SWSR_Ptr_Buffer::reset) is a many-word, non-atomic write to memory another thread may already hold again
+// (segments are recycled through BufferPool's cache): a scheduling point in front of every memset of the FastFlow headers.
+extern "C" void vs_point(int tag);
+// The segments this harness uses are far below 512 slots, where reset() wipes with a plain loop that nothing can interpose:
+// the one source hook of this framework (fix8 commit "verif hook: ...", guard FIX8_VERIF) puts a scheduling point at the
+// head of SWSR_Ptr_Buffer::reset; it exists only in translation units that define both macros, i.e. only here.
+#define FIX8_VERIF 1
+#define FIX8_VERIF_POINT(tag) vs_point(tag)
+static inline void *verif_memset(void *p, int v, size_t n) { vs_point(9030); return memset(p, v, n); }
+#define memset(p, v, n) verif_memset((p), (v), (n))
 #include <fix8/ff/allocator.hpp>
 #include <fix8/ff/buffer.hpp>
 #include <fix8/ff/mpmc/MPMCqueues.hpp>
+#undef memset
 #include <pthread.h>
 #include "sched/explore.hpp"
 
 static ff::uMPMC_Ptr_Queue *Q;
-static int NP = 2, NPUSH = 2, NC = 1, NPOP = 4;
+static int NP = 2, NPUSH = 2, NC = 1, NPOP = 4, SEG = 4;	// SEG: slots per SPSC segment (seg=1: every second push to a lane chains a segment)
 
 // ---- event log (execution is serialised by the scheduler: a plain global sequence is a total order)
 struct OpRec { int thread; bool push; int token; long ticket = -1; bool ok = false; long start = 0, end = 0; long observe_seq = -1; long cas_at = -1; };
@@ -91,7 +103,7 @@ static void *consumer(void *a)
 
 static std::string body()
 {
-	Q = new ff::uMPMC_Ptr_Queue; Q->init(2, 4);
+	Q = new ff::uMPMC_Ptr_Queue; Q->init(2, SEG);
 	a_preadP = &Q->preadP; a_preadC = &Q->preadC; a_seqP0 = &Q->seqP[0]; a_seqP1 = &Q->seqP[1];
 	ops.assign(16 * 8, OpRec()); publish_at.clear(); gseq = 0; memset(loc_h, 0, sizeof loc_h); memset(kstart, 0, sizeof kstart); monitor_bad = false; monitor_msg.clear(); my_slot = -1;
 	pthread_t pt[8], ct[8]; Arg pa[8], ca[8];
@@ -159,7 +171,7 @@ int main(int argc, char **argv)
 {
 	vh::Run R(argc, argv);
 	NP = (int)R.args.num("p", 2); NPUSH = (int)R.args.num("pushes", 2); NC = (int)R.args.num("c", 1); NPOP = (int)R.args.num("pops", 4);
-	FULL = R.args.num("full", 0) != 0;
+	FULL = R.args.num("full", 0) != 0; SEG = (int)R.args.num("seg", 4);
 	const int bound = FULL ? 1000 : (int)R.args.num("bound", 2);
 	if (FULL) vs_set_state_hash(state_hash);
 	const std::string cfg = "p" + std::to_string(NP) + "x" + std::to_string(NPUSH) + "c" + std::to_string(NC) + "x" + std::to_string(NPOP);
@@ -176,7 +188,7 @@ int main(int argc, char **argv)
 		size_t sc = R.single_case.find(';'); std::vector<int> pre = sx::parse_choices(R.single_case.substr(sc + 1));
 		R.begin_case(R.single_case); sx::Exec x = sx::run_once(body, pre); judge(x, R.single_case);
 		fprintf(stderr, "schedule %s: end=%s outcome=%s points=%zu preemptions=%d\n", R.single_case.c_str(), x.end.c_str(), x.outcome.c_str(), x.pts.size(), x.preemptions());
-		for (auto& p : x.pts) if (p.n > 1) fprintf(stderr, "  point: %d enabled, thread %d at line %d, chose %d\n", p.n, p.thread, p.tag, p.choice);
+		for (auto& p : x.pts) if (p.n > 1 || R.args.has("trace")) fprintf(stderr, "  point: %d enabled, thread %d at line %d, chose %d\n", p.n, p.thread, p.tag, p.choice);
 		R.finish(); return R.violations ? 1 : 0;
 	}
 	sx::Stats S;
